@@ -15,10 +15,11 @@ import (
 )
 
 type input struct {
-	Kind string         `json:"kind"` // ctl | line | trace
-	Cfg  *memasm.Config `json:"cfg"`
-	Init []byte         `json:"init,omitempty"`
-	Base uint64         `json:"base,omitempty"`
+	Kind  string         `json:"kind"` // ctl | line | trace | ideal
+	Cfg   *memasm.Config `json:"cfg,omitempty"`
+	Ideal *idealInput    `json:"ideal,omitempty"`
+	Init  []byte         `json:"init,omitempty"`
+	Base  uint64         `json:"base,omitempty"`
 }
 
 type obs struct {
@@ -71,6 +72,9 @@ func run(raw json.RawMessage) (hx.Case, error) {
 	var in input
 	if err := hx.UJ(raw, &in); err != nil {
 		return hx.Case{}, err
+	}
+	if in.Kind == "ideal" {
+		return runIdeal(*in.Ideal)
 	}
 	var c hx.Case
 	o := obs{}
@@ -257,6 +261,15 @@ func gen(r *hx.Rand, tier string) []json.RawMessage {
 		cfg.Script = ops
 		add(input{Kind: "line", Cfg: &cfg, Init: r.Bytes(int(line)), Base: base})
 	}
+	// ---- L1: ideal controller tick by tick
+	nideal := 40
+	if tier == "thorough" {
+		nideal = 500
+	}
+	for i := 0; i < nideal; i++ {
+		ii := genIdeal(r)
+		add(input{Kind: "ideal", Ideal: &ii})
+	}
 	// ---- traces of whole hierarchies
 	kinds := []string{"writeback", "write-around", "write-evict", "write-through"}
 	mems := []string{"ideal", "banked", "dram"}
@@ -303,13 +316,14 @@ func shrink(raw json.RawMessage) []json.RawMessage {
 func init() {
 	hx.Register(&hx.Prop{
 		ID:      "C16",
-		Imports: "From Akita Require Import Lib.Base C16.Model C16.Exec.",
+		Imports: "From Akita Require Import Lib.Base C16.Model C16.Ideal C16.Exec.",
 		Rule: "ctl: 1-4 sequential (masked) writes into one pre-filled 64-byte line of a real ideal / banked / DRAM-preset controller, final storage " +
 			"bytes read directly (1/15 with a too-short mask -> panic outcome). line: the same through one real write-back / write-through / write-around cache " +
 			"(optionally pre-read, sequential or concurrent), observing the line in the cache's data array and the block's dirty mask. trace: random assemblies " +
 			"[ROB]? -> 0..3 caches of the four kinds (random geometry, small enough to evict) -> 1..3 interleaved ideal/banked/DRAM modules; random script of " +
 			"reads and full-line / partial / masked writes, PIDs, delays, barriers, 1..16 requests in flight (byte-disjoint at issue); every (top kind, memory kind) " +
-			"pair is visited. Non-trivial: masked ctl write without panic / line present / trace through >=1 cache or ROB with >= 20 answered requests. Distinct = distinct input hash.",
+			"pair is visited. ideal: the real ideal controller built stand-alone and driven tick by tick (deliveries, Tick(), partial retrieval: back-pressure) " +
+			"with latency 0/1/2/5, width 1-3, outgoing capacity 1-3. Non-trivial: masked ctl write without panic / line present / trace through >=1 cache or ROB with >= 20 answered requests. Distinct = distinct input hash.",
 		Gen: gen, Run: run, Shrink: shrink,
 	})
 }
